@@ -114,10 +114,45 @@ def _run(ctx, ncases, nsteps, rec):
       acc.hit("flags:" + ("+".join(fl) or "none"))
       acc.sample({"integrator": integ, "dyntype": dyn, "disabled": fl, "cone": cone.strip(), "dt": dt})
 
-  if rec:
-    kc, _ = intercept(KERNELS, scenario, rng, max_tids=16, per_kernel=3)
-  else:
+  def probe_implicitfast_gyro():
+    """recorded deviation (known_findings C08-implicitfast-gyroscopic): for a fast-spinning free body with an off-centre, non-spherical
+    inertia the installed MuJoCo's implicitfast step equals its `implicit` step (velocity-dependent bias derivative included), while
+    mujoco_warp's implicitfast has no such term (here: no velocity-dependent passive/actuator force at all, so it equals its Euler step).
+    Reported only when exactly that signature is observed; any other mismatch on this scene is an ordinary finding."""
+    v0 = [0.1, -0.2, 0.3, -2.7, -3.3, 1.4]
+    res = {}
+    for integ in ("Euler", "implicit", "implicitfast"):
+      xml = (f'<mujoco><option timestep="0.004" integrator="{integ}" gravity="0 0 0"/><worldbody><body pos="0.3 0 1"><freejoint/>'
+             '<geom type="capsule" size="0.04 0.05" pos="-0.07 0.07 -0.09"/></body></worldbody></mujoco>')
+      mjm = mujoco.MjModel.from_xml_string(xml)
+      ref = mujoco.MjData(mjm); ref.qvel[:] = v0; ref.xfrc_applied[1] = [1, 2, -1, 0.05, -0.1, 0.02]
+      mjd = mujoco.MjData(mjm); mjd.qvel[:] = v0; mjd.xfrc_applied[:] = ref.xfrc_applied
+      mujoco.mj_forward(mjm, mjd)
+      m = mjw.put_model(mjm)
+      d = mjw.put_data(mjm, mjd)
+      mjw.step(m, d)
+      mujoco.mj_step(mjm, ref)
+      acc.evals += 1
+      res[integ] = (d.qvel.numpy()[0].astype(np.float64), ref.qvel.copy(), xml)
+    acc.hit("probe:implicitfast-spinning-free-body")
+    for integ in ("Euler", "implicit", "implicitfast"):
+      a, b, xml = res[integ]
+      if np.allclose(a, b, rtol=3e-4, atol=3e-4):
+        continue
+      sig = (integ == "implicitfast" and np.allclose(res["Euler"][0], a, atol=2e-6) and np.allclose(res["implicit"][1], b, atol=1e-7)
+             and np.allclose(res["Euler"][0], res["Euler"][1], atol=3e-5) and np.allclose(res["implicit"][0], res["implicit"][1], atol=3e-5))
+      acc.find(f"{integ} step of a fast-spinning free body differs from mj_step by {np.abs(a - b).max():.3g} in qvel"
+               + (" (MuJoCo's implicitfast equals its implicit step; mujoco_warp's equals its Euler step: no velocity-dependent bias derivative)" if sig else ""),
+               "forward." + integ.lower(), "implicitfast-no-gyroscopic-derivative" if sig else f"vs-mujoco-{integ}", xml=xml, qvel=v0)
+
+  def scenario_all():
     scenario()
+    probe_implicitfast_gyro()
+
+  if rec:
+    kc, _ = intercept(KERNELS, scenario_all, rng, max_tids=16, per_kernel=3)
+  else:
+    scenario_all()
     kc = None
   return acc, kc
 
